@@ -153,6 +153,24 @@ def prep_oracle(rng):
             got = np.asarray(P2)[:, :d]
             if not np.allclose(got, want, atol=1e-9):
                 return f("reuse-bounds", "a later prepare_data call did not re-use the first call's column bounds")
+            # ... also for later data that leaves those bounds: same affine map, still inverted by restore_data
+            lo, hi = X.min(axis=0), X.max(axis=0)
+            X3 = np.vstack([lo - 0.25 * (hi - lo), hi + 0.5 * (hi - lo), X[0]])
+            rep["later_batch_outside_the_first_bounds"] = X3.tolist()
+            P3 = np.asarray(est.prepare_data(X3))
+            if not np.allclose(P3[:, :d], (X3 - lo) / (hi - lo), atol=1e-9):
+                return f("reuse-bounds", "a later prepare_data call (data outside the first bounds) did not apply the first call's column bounds")
+            if not np.allclose(est.restore_data(P3), X3, rtol=1e-9, atol=1e-9 * scale):
+                return f("restore", "restore_data does not invert prepare_data on a later batch outside the first bounds")
+        # normalisation and complement coding individually, on arbitrary finite matrices
+        from artlib.common.utils import compliment_code, de_compliment_code, normalize, de_normalize
+        Z = np.array([[rng.uniform(-3, 4) * scale + off for _ in range(d)] for _ in range(n)])
+        rep["Z"] = Z.tolist()
+        if not np.allclose(de_compliment_code(compliment_code(Z)), Z, rtol=1e-9, atol=1e-9 * max(1.0, scale)):
+            return f("cc-roundtrip", "de_compliment_code(compliment_code(Z)) != Z")
+        Nz, zmax, zmin = normalize(Z)
+        if not np.allclose(de_normalize(Nz, zmax, zmin), Z, rtol=1e-9, atol=1e-9 * max(1.0, scale)):
+            return f("normalize-roundtrip", "de_normalize(normalize(Z)) != Z")
     except Exception as e:
         return f("raises", f"{type(e).__name__}: {str(e)[:80]}")
     return None
